@@ -198,7 +198,7 @@ class CommonRD:
             if "lt" in registration_parameters:
                 try:
                     set_lt = int(pop_single_arg(registration_parameters, "lt"))
-                except ValueError:
+                except (ValueError, TypeError):
                     raise error.BadRequest("lt must be numeric")
 
             if "base" in registration_parameters:
